@@ -46,6 +46,11 @@ def configs(tier, seed):
                         continue    # region of the known periodization defect F1 (decided under C01/C02/C10)
                     for d in ('fwd', 'inv'):
                         out.append(dict(kind='tuple4', wc=wc, wr=wr, mode=mode, J=J, H=h, W=w, dir=d, B=1, C=1))
+    # None highpass levels with distinct row/column filters (J=1: no un-pad ambiguity; J=2 in periodization with even sizes)
+    for (wc, wr) in pairs[:3]:
+        for mode in MODES:
+            out.append(dict(kind='tuple4', wc=wc, wr=wr, mode=mode, J=1, H=8, W=6, dir='inv', B=1, C=1, mask=[1]))
+        out.append(dict(kind='tuple4', wc=wc, wr=wr, mode='periodization', J=2, H=16, W=24, dir='inv', B=1, C=1, mask=[1, 0]))
     for w in ['db2', 'bior2.4']:
         for mode in MODES:
             for d in ('fwd', 'inv'):
@@ -90,12 +95,16 @@ def _case(cfg):
         sl, sh = _pyr_shapes(cfg)
         in_specs = [('yl', (B, C) + tuple(sl))] + [('yh%d' % (j + 1), (B, C) + tuple(s)) for j, s in enumerate(sh)]
 
+        mask = cfg.get('mask') or [0] * cfg['J']
+
         def impl(pw, ts):
-            y = pw.DWTInverse(wave=_filts(cfg, 'inv'), mode=cfg['mode'])((ts[0], list(ts[1:])))
+            hs = [None if mask[j] else h for j, h in enumerate(ts[1:])]
+            y = pw.DWTInverse(wave=_filts(cfg, 'inv'), mode=cfg['mode'])((ts[0], hs))
             return [('rec', y)]
 
         def ref(arrs):
-            co = [arrs[0]] + [tuple(np.take(h, i, axis=-3) for i in range(3)) for h in arrs[1:][::-1]]
+            hs = [np.zeros_like(h) if mask[j] else h for j, h in enumerate(arrs[1:])]
+            co = [arrs[0]] + [tuple(np.take(h, i, axis=-3) for i in range(3)) for h in hs[::-1]]
             return [pywt.waverec2(co, pair, mode=cfg['mode'], axes=(-2, -1))]
     return in_specs, impl, ref
 
